@@ -213,6 +213,18 @@ class KeySpec:
             return row['items'][i]
         return None
 
+    def lookup(self, v):
+        """`TABLE.iter().find(|(n, _)| *n == key)` as a value: some(row) / none, when the table is a resolved constant."""
+        if not (v.get('k') == 'call' and v.get('f') == 'find' and v.get('recv') is not None and len(v.get('args', [])) == 1 and self._closure_eq(v['args'][0])):
+            return None
+        items = _const_items(v['recv'])
+        keys = _table_keys(items)
+        if keys is None:
+            return None
+        if self.name in keys:
+            return {'k': 'some', 'v': items[keys.index(self.name)]}
+        return {'k': 'none'}
+
     def test(self, c, specs):
         kk = c.get('k')
         if kk == 'op' and c.get('op') in ('==', '!=') and len(c.get('args', [])) == 2:
@@ -435,6 +447,35 @@ def evs(v, specs, depth=0):
         return [dict(v, v=x) if not (isinstance(x, dict) and x.get('k') == 'never') else x for x in evs(v.get('v'), specs, depth + 1)]
     if kk == 'call':
         outs = [v]
+        for sp in specs:
+            r = sp.lookup(v) if hasattr(sp, 'lookup') else None
+            if r is not None:
+                return [r]
+        if v.get('recv') is not None and v.get('f') in ('and_then', 'map', 'filter', 'or_else', 'unwrap_or', 'unwrap_or_else', 'unwrap_or_default', 'map_or', 'map_or_else', 'ok_or', 'ok_or_else', 'is_some', 'is_none') and depth < 40:
+            # Option adaptors over a receiver whose shape the assumption decides
+            res = []
+            for r in evs(v['recv'], specs, depth + 1)[:6]:
+                sh = _opt_shape(r, specs)
+                res.append(_adapt_option(v, r, sh, specs, depth))
+            if all(x is not None for x in res):
+                return [y for x in res for y in x][:16]
+        if v.get('recv') is None and isinstance(v.get('callee_value'), dict) and depth < 40:
+            # a call of a local that holds a function: a path (`RenameExt::to_x`) or a closure literal
+            outs2 = []
+            for cv in evs(v['callee_value'], specs, depth + 1)[:6]:
+                t = vt.unvar(cv)
+                while isinstance(t, dict) and t.get('k') in ('ref', 'deref', 'paren'):
+                    t = vt.unvar(t.get('v'))
+                if isinstance(t, dict) and t.get('k') == 'path':
+                    outs2.append({'k': 'call', 'f': str(t.get('text', '')).replace(' ', ''), 'args': v.get('args', []), 'recv': None, 'line': v.get('line'), 'ty': v.get('ty')})
+                elif isinstance(t, dict) and t.get('k') == 'closure' and isinstance(t.get('body'), dict):
+                    from .inline import _subst_closure_params
+                    names = [(p_.get('names') or ['_'])[0] for p_ in t.get('params', [])]
+                    cenv = {n: a for n, a in zip(names, v.get('args', [])) if n and n != '_'}
+                    outs2 += evs(_subst_closure_params(t['body'], cenv), specs, depth + 1)
+                else:
+                    outs2.append(v)
+            return outs2[:12]
         if v.get('recv') is None and str(v.get('f')) in ('Some', 'Ok', 'Err') and len(v.get('args', [])) == 1:
             return [dict(v, args=[x]) if not (isinstance(x, dict) and x.get('k') == 'never') else x for x in evs(v['args'][0], specs, depth + 1)]
         if v.get('recv') is not None and v.get('f') in vt.TRANSPARENT_CALLS | {'to_owned', 'to_string', 'into', 'as_str', 'clone', 'as_deref', 'as_ref'}:
@@ -517,6 +558,59 @@ def evs(v, specs, depth=0):
             combos = [c + [x] for c in combos for x in subs[:4]][:12]
         return [dict(v, items=c) for c in combos]
     return [v]
+
+
+def _opt_shape(r, specs):
+    """'Some' / 'None' for an evaluated receiver: by its own shape, or because a spec says so."""
+    sh = _shape(r)
+    if sh in ('Some', 'None'):
+        return sh
+    for sp in specs:
+        if isinstance(sp, OptSpec) and sp.is_scrut(r):
+            return sp.want
+    t = vt.unvar(r)
+    if isinstance(t, dict) and t.get('k') == 'call' and t.get('recv') is not None and t.get('f') in ('as_deref', 'as_ref', 'cloned', 'copied', 'as_mut') and not t.get('args'):
+        return _opt_shape(t['recv'], specs)
+    return None
+
+
+def _adapt_option(call, recv, shape, specs, depth):
+    """Value alternatives of `recv.<adaptor>(..)` when recv is known to be Some / None; None when undecided."""
+    f, args = call.get('f'), call.get('args', [])
+    if shape is None:
+        return None
+
+    def body_of(a):
+        a = vt.unvar(a)
+        return a.get('body') if isinstance(a, dict) and a.get('k') == 'closure' else None
+    if f in ('is_some', 'is_none'):
+        return [{'k': 'lit', 't': 'bool', 'v': (shape == 'Some') == (f == 'is_some'), 'ty': 'bool'}]
+    if shape == 'None':
+        if f in ('and_then', 'map', 'filter'):
+            return [{'k': 'none'}]
+        if f in ('unwrap_or', 'ok_or') and args:
+            return evs(args[0], specs, depth + 1) if f == 'unwrap_or' else None
+        if f in ('unwrap_or_else', 'or_else') and args and body_of(args[0]) is not None:
+            return evs(body_of(args[0]), specs, depth + 1)
+        if f == 'map_or' and len(args) == 2:
+            return evs(args[0], specs, depth + 1)
+        if f == 'map_or_else' and len(args) == 2 and body_of(args[0]) is not None:
+            return evs(body_of(args[0]), specs, depth + 1)
+        return None
+    # Some(x): closure parameters of these adaptors are modelled by the evaluator as the element of the receiver, so the body
+    # already speaks about the payload
+    if f == 'and_then' and args and body_of(args[0]) is not None:
+        return evs(body_of(args[0]), specs, depth + 1)
+    if f == 'map' and args and body_of(args[0]) is not None:
+        return [{'k': 'some', 'v': x} if not (isinstance(x, dict) and x.get('k') == 'never') else x for x in evs(body_of(args[0]), specs, depth + 1)]
+    if f in ('map_or', 'map_or_else') and len(args) == 2 and body_of(args[1]) is not None:
+        return evs(body_of(args[1]), specs, depth + 1)
+    if f in ('unwrap_or', 'unwrap_or_else', 'unwrap_or_default'):
+        pl = _payload(recv) if _shape(recv) == 'Some' else None
+        return [pl] if pl is not None else [{'k': 'payload', 'of': recv, 'variant': 'Some'}]
+    if f == 'or_else':
+        return [recv]
+    return None
 
 
 def ev(v, param, variant, depth=0):
